@@ -98,7 +98,7 @@ M = [
  ("c16_gravity_height_term", "pyins/earth.py", "            * (1 - 2 * alt / A))", "            * (1 - 2 * alt / A) ** 1.0)", ["C16"], "quiet-or-drift"),
  ("c03_inertial_longitude_rate_dropped", "pyins/sim.py", "    lla_inertial[:, 1] += np.rad2deg(earth.RATE) * time\n", "", ["C03"], "violation"),
  ("c03_gravitation_added", "pyins/sim.py", "        accel = util.mv_prod(mat_ib, v_i_spline(time, 1) - g_i, at=True)", "        accel = util.mv_prod(mat_ib, v_i_spline(time, 1) + g_i, at=True)", ["C03"], "violation"),
- ("c03_increment_gravity_slope_dropped", "pyins/sim.py", "        e = a_s.c[0] - np.diff(g_i, axis=0) / dt", "        e = a_s.c[0]", ["C03"], "quiet-or-drift"),
+ ("c03_increment_gravity_slope_dropped", "pyins/sim.py", "        e = a_s.c[0] - np.diff(g_i, axis=0) / dt", "        e = a_s.c[0]", ["C03"], "violation"),     # first labelled quiet by mistake: in the inertial frame gravitation rotates with the Earth, dropping its slope costs 5e-6 g
  ("c03_velocity_form_coriolis_sign", "pyins/sim.py", "        v_i = util.mv_prod(mat_in, velocity_n) + np.cross(earth_rate_i, r_i)", "        v_i = util.mv_prod(mat_in, velocity_n) - np.cross(earth_rate_i, r_i)", ["C03"], "violation"),
 ]
 
